@@ -115,36 +115,56 @@ def run_driver(out_dir, target_dir, repo=REPO, log=sys.stderr):
     return time.time() - t0
 
 
+def _locked(name):
+    fh = open(os.path.join(CACHE, name), "w")
+    fcntl.flock(fh, fcntl.LOCK_EX)
+    return fh
+
+
+def _unlock(fh):
+    fcntl.flock(fh, fcntl.LOCK_UN)
+    fh.close()
+
+
 def ensure_facts(fresh=False, log=sys.stderr):
-    """Return (facts_dir, info). Extracts when the tree hash has no cached facts."""
+    """Return (facts_dir, info). Extracts when the tree hash has no cached facts.
+    Locks: `lock` (global) for the driver build and cache eviction; one lock per tree hash so a tree is extracted once; one lock per cargo target
+    directory, because two cargo runs cannot share one.  Runs with different NVS_TARGET directories extract concurrently."""
     os.makedirs(CACHE, exist_ok=True)
-    lock = open(os.path.join(CACHE, "lock"), "w")
-    fcntl.flock(lock, fcntl.LOCK_EX)
+    g = _locked("lock")
     try:
         build_driver(log)
         th, nfiles = tree_hash()
         d = os.path.join(CACHE, "facts", th)
         ok = os.path.join(d, "OK")
         info = {"tree_hash": th, "source_files_hashed": nfiles, "cached": True, "extract_s": 0.0}
+        # least recently *used* first (a cache hit touches the set); never evict a set used in the last 30 minutes — another
+        # process may still be loading it (loading happens outside the lock)
+        root = os.path.join(CACHE, "facts")
+        if os.path.isdir(root):
+            olds = sorted((os.path.getmtime(os.path.join(root, x)), x) for x in os.listdir(root) if not x.endswith(".tmp"))
+            for m, x in olds[:-12]:
+                if time.time() - m > 1800 and x != th:
+                    shutil.rmtree(os.path.join(root, x), ignore_errors=True)
+    finally:
+        _unlock(g)
+    target = os.environ.get("NVS_TARGET") or os.path.join(CACHE, "target")
+    t = _locked("lock-tree-" + th)
+    try:
         if fresh and os.path.isdir(d):
             shutil.rmtree(d)
         if not os.path.exists(ok):
             if os.path.isdir(d):
                 shutil.rmtree(d)
-            # keep at most 12 old fact sets
-            root = os.path.join(CACHE, "facts")
-            if os.path.isdir(root):
-                # least recently *used* first (a cache hit touches the set); never evict a set used in the last 30 minutes — another
-                # process may still be loading it (loading happens outside the lock)
-                olds = sorted((os.path.getmtime(os.path.join(root, x)), x) for x in os.listdir(root))
-                for m, x in olds[:-12]:
-                    if time.time() - m > 1800:
-                        shutil.rmtree(os.path.join(root, x), ignore_errors=True)
             tmp = d + ".tmp"
             if os.path.isdir(tmp):
                 shutil.rmtree(tmp)
             print("[nvs] extracting facts for tree %s ..." % th, file=log)
-            secs = run_driver(tmp, os.environ.get("NVS_TARGET") or os.path.join(CACHE, "target"), log=log)
+            tl = _locked("lock-target-" + hashlib.sha256(os.path.abspath(target).encode()).hexdigest()[:16])
+            try:
+                secs = run_driver(tmp, target, log=log)
+            finally:
+                _unlock(tl)
             os.rename(tmp, d)
             with open(ok, "w") as fh:
                 fh.write("%f\n" % secs)
@@ -157,8 +177,7 @@ def ensure_facts(fresh=False, log=sys.stderr):
                 pass
         return d, info
     finally:
-        fcntl.flock(lock, fcntl.LOCK_UN)
-        lock.close()
+        _unlock(t)
 
 
 if __name__ == "__main__":
